@@ -13,7 +13,9 @@ RULE = ("grid {0, 65536, 65537, 10^6, 2^62, 2^63-1, 2^63, 2^64-1} for client rx 
         "QUIC handshakes (real client.NewClient against NewServer/handleClient/ServeHTTP) observing Authenticator tx, "
         "EventLogger.Connect tx, HandshakeInfo.Tx and the congestion controller installed on each quic.Conn (type and rate, by reflection); "
         "raw Hysteria-CC-RX request headers {missing, '', abc, -1, +5, 1e3, 20/21-digit, overflow, ...} sent by a bare HTTP/3 client "
-        "to the real server, and raw response headers (incl. auto) served by a bare HTTP/3 server to the real client; "
+        "to the real server; histories of 2-5 POST /auth requests on ONE connection (first accepted rate A in {numeral, 0, missing, "
+        "overflow, junk}, later B in {0, missing, smaller, larger, overflow, auto, junk, same}, requests refused by the Authenticator "
+        "before/between) with the controller on the connection read after every response and all Authenticate/Connect calls; and raw response headers (incl. auto) served by a bare HTTP/3 server to the real client; "
         "in-package header codec on arbitrary byte strings and multiple values; Config.fill() around the 65536 floor; "
         "brutal.NewBrutalSender around 2^63. Non-trivial = a handshake-level case (real network handshake) or a codec case whose "
         "header is not a plain in-range numeral. Distinct = distinct JSON case.")
@@ -22,7 +24,7 @@ ASSUMPTIONS = [
     "HTTP/3 transports the Hysteria-CC-RX value unchanged (quic-go http3/qpack; raw-header handshakes only use visible ASCII without spaces)",
     "server-side connections are accepted by a 3-line copy of serverImpl.Serve (to keep the *quic.Conn); handleClient/ServeHTTP are the real code",
 ]
-TRUSTED = ["modelled rather than verified: ServeHTTP auth branch (core/server/server.go), clientImpl.connect (core/client/client.go), "
+TRUSTED = ["modelled rather than verified: ServeHTTP auth branch incl. the already-authenticated early return (core/server/server.go), clientImpl.connect (core/client/client.go), "
            "header codec (core/internal/protocol/http.go) with strconv.ParseUint/FormatUint base 10, UseBrutal/UseConfigured, "
            "NewBrutalSender's uint64->ByteCount conversion, Config.fill() bandwidth floor (hand transcription in coq/model/C10_Negotiate.v)",
            "reflection on apernet/quic-go internals (Conn.sentPacketHandler.congestion -> ccAdapter.CC) to read the installed controller"]
@@ -142,6 +144,29 @@ def gen(rng, tier):
     for h in RAW_STRS:
         for ctx in ((0, 1000) if not thorough else (0, 1, 1000, 65536, 2 ** 63, M)):
             cases.append({"k": "rawresp", "hdr": h, "ctx": ctx, "crx": rng.choice([0, 77, M]), "ctype": rng.choice(TYPES)})
+    # --- several auth requests on ONE connection (raw HTTP/3 client -> real server): A, then B != A, sometimes C;
+    #     B over {0, missing, smaller, larger, overflow, 'auto', junk, same}; sometimes requests the Authenticator
+    #     refuses before / between
+    A = ["1000000", "65536", "70000", "0", None, "18446744073709551616", "abc", "9223372036854775807", "123456789"]
+    B = ["0", None, "", "50000000", "65536", "1", "18446744073709551615", "18446744073709551616", "99999999999999999999",
+         "auto", "Auto", "abc", "-1", "1e9", "007"]
+    pairs = [(a, b_) for a in A for b_ in B]
+    rng.shuffle(pairs)
+    fixed = [("1000000", "50000000"), ("1000000", "0"), ("0", "1000000"), (None, "70000"), ("1000000", "auto"),
+             ("70000", "18446744073709551616"), ("1000000", "1000000")]
+    for i, (a, b_) in enumerate(fixed + pairs[:(40 if not thorough else len(pairs))]):
+        reqs = [{"hdr": a, "acc": True}, {"hdr": b_, "acc": rng.random() < 0.85}]
+        r = rng.random()
+        if r < 0.3:
+            reqs.append({"hdr": rng.choice(B + A), "acc": True})
+        if rng.random() < 0.2:
+            reqs.insert(0, {"hdr": rng.choice(B + A), "acc": False})
+        if rng.random() < 0.1:
+            reqs.append({"hdr": rng.choice(B), "acc": rng.random() < 0.5})
+        cases.append({"k": "reauth", "reqs": reqs, "stx": rng.choice([0, 0, 65536, 10 ** 6, 2 ** 62]), "srx": rng.choice([0, 70000, M]),
+                      "ignore": i % 9 == 8, "stype": rng.choice(TYPES)})
+    cases.append({"k": "reauth", "reqs": [{"hdr": "5", "acc": False}, {"hdr": "6", "acc": False}], "stx": 0, "srx": 0,
+                  "ignore": False, "stype": ""})
     cases.append({"k": "rawresp", "hdr": "5", "ctx": M, "crx": 0, "ctype": ""})
     cases.append({"k": "rawresp", "hdr": "0", "ctx": 2 ** 63 - 1, "crx": 0, "ctype": ""})
     return cases
@@ -221,6 +246,18 @@ def to_coq(c, o):
             return None
         return "CRawReq %s %s %s %s %s %s" % (srv(c), hdr_vals(c["hdr"]), num(o["auth_tx"]), num(o["connect_tx"]), si,
                                               common.coq_bytes(bytes.fromhex(o["resp_hdr"])))
+    if k == "reauth":
+        if "steps" not in o or len(o["steps"]) != len(c["reqs"]):
+            return None
+        obs = []
+        for st in o["steps"]:
+            si = inst(st["s_kind"], st["s_bps"])
+            if si is None:
+                return None
+            obs.append("(%s,%s,%s)" % (b(st["status"] == 233), common.coq_bytes(bytes.fromhex(st["resp_hdr"])), si))
+        rqs = "[" + ";".join("(%s,%s)" % (hdr_vals(r["hdr"]), b(r["acc"])) for r in c["reqs"]) + "]"
+        return "CReauth %s %s [%s] [%s] [%s]" % (srv(c), rqs, ";".join(obs), ";".join(num(x) for x in (o.get("auth_txs") or [])),
+                                                 ";".join(num(x) for x in (o.get("connect_txs") or [])))
     if k == "rawresp":
         ci = inst(o.get("c_kind"), o.get("c_bps"))
         if ci is None or "req_hdr" not in o:
@@ -265,12 +302,21 @@ def klass(c, o):
         return "hs:%ss=%s,c=%s" % ("ignore," if c["ignore"] else "", side(o["s_kind"], o["s_bps"]), side(o["c_kind"], o["c_bps"]))
     if k == "rawreq":
         return "rawreq:%s:%s" % (hclass(None if c["hdr"] is None else c["hdr"].encode()), side(o["s_kind"], o["s_bps"]))
+    if k == "reauth":
+        acc = [i for i, r in enumerate(c["reqs"]) if r["acc"]]
+        if not acc:
+            return "reauth:never-accepted"
+        f = acc[0]
+        later = c["reqs"][f + 1:]
+        return "reauth:%s:first=%s:then=%s" % ("refused-first" if f > 0 else "accepted-first",
+                                             hclass(None if c["reqs"][f]["hdr"] is None else c["reqs"][f]["hdr"].encode()),
+                                             "+".join(hclass(None if r["hdr"] is None else r["hdr"].encode()) for r in later[:2]) or "none")
     return "rawresp:%s:%s" % (hclass(None if c["hdr"] is None else c["hdr"].encode()), side(o["c_kind"], o["c_bps"]))
 
 
 def nontrivial(c, o):
     k = c["k"]
-    if k in ("hs", "rawreq", "rawresp"):
+    if k in ("hs", "rawreq", "rawresp", "reauth"):
         return "err" not in o
     if k in ("preq", "presp"):
         raw = bytes.fromhex(c["vals"][0]) if c["vals"] else None
@@ -317,7 +363,11 @@ def run(ctx):
         import re
         seen, out, counts = set(), [], {}
         for v in violations:
-            key = v.get("fingerprint") or re.sub(r"-?\d+", "N", v.get("what") or "")
+            what = v.get("what") or ""
+            if what.startswith("reauth:"):
+                # one line per clause that failed first; headers, controller kinds and rates blanked
+                what = re.sub(r"\b(brutal|bbr|default)@", "K@", re.sub(r'"[^"]*"|<missing>', "Q", what.split(";")[0]))
+            key = v.get("fingerprint") or re.sub(r"-?\d+", "N", what)
             counts[key] = counts.get(key, 0) + 1
             if key in seen:
                 continue
